@@ -5,7 +5,6 @@ from typing import Optional, Union
 from ..._string_utils import infer_suggestions, quoted_options_list
 from ...exc import ScalarParsingError, UnknownEnumValue
 from ...lang import ast as _ast
-from ...lang.visitor import SkipNode
 from ...schema import (
     EnumType,
     GraphQLType,
@@ -105,8 +104,8 @@ class ValuesOfCorrectTypeChecker(ValidationVisitor):
             expected = expected.type
 
         if not isinstance(expected, ListType):
-            self._report_bad_value(self.type_info.enclosing_input_type, node)
-            raise SkipNode()
+            # Only a custom scalar may accept a list literal as a whole.
+            self._check_scalar(node)
 
     def enter_object_value(self, node):
         named_type = (
@@ -115,8 +114,11 @@ class ValuesOfCorrectTypeChecker(ValidationVisitor):
             else None
         )
         if not isinstance(named_type, InputObjectType):
+            # The literal is checked as a whole. Its content is still visited
+            # (skipping the node would hide the variables used inside it from
+            # every other rule).
             self._check_scalar(node)
-            raise SkipNode()
+            return
 
         input_fields = [f.name.value for f in node.fields]
         for field_def in named_type.fields:
